@@ -37,8 +37,22 @@ Inductive verdict := VOk (s : state) | VBad (idx : nat) (why : nat).
         4 step undefined (clock going backwards, wrong number of time() calls),
         5 environment differs after the step *)
 
+(* the master keeps the condition variable between two passes: its next operation is the first
+   decision of the next pass (Model.master_step_alt) *)
+Definition keeps_cv (s : state) (ev : event) : bool :=
+  match etid ev, mp s, eop ev with
+  | 0, MCvRelLoop (_ :: _), OpEnv => true
+  | _, _, _ => false
+  end.
+
 Definition replay_step (c : cfg) (s : state) (ev : event) : state + nat :=
   if negb (list_eqb Nat.eqb (enabled_list c s) (eenabled ev)) then inr 1 else
+  if keeps_cv s ev then
+    match step c s 0 [0] with
+    | None => inr 4
+    | Some s' => if env_eqb (ntasks c) (env s') (eenv ev) then inl s' else inr 5
+    end
+  else
   match thread_op c s (etid ev) with
   | None => inr 2
   | Some (k, a, en) =>
